@@ -330,7 +330,7 @@ def verify_edges(ctx, doc_pred, recv_pred=None, name_pred=None):
     """Ok edges of verify_role calls whose verified document satisfies doc_pred"""
     out = []
     sites = []
-    for bb, t in ctx.calls(ROOT_VERIFY, DELEG_VERIFY):
+    for bb, t in ctx.calls(ROOT_VERIFY, DELEG_VERIFY, wrappers=True):
         og = ctx.origins.of_operand(t.args[1], at=bb)
         if not og or not all(doc_pred(o) for o in og):
             continue
@@ -360,7 +360,7 @@ def r3_parse_sites(chk, prog):
         chk.analysed_body(ctx.body)
         f = ctx.fn
         cfg = ctx.cfg
-        nverify += len(ctx.calls(ROOT_VERIFY, DELEG_VERIFY))
+        nverify += len(ctx.calls(ROOT_VERIFY, DELEG_VERIFY, wrappers=True))
         parses = [(bb, t) for bb, t in ctx.calls(*SER_PARSE) if any("Signed<" in g for g in t.generic_args)]
         for pbb, pt in parses:
             me = Origin("call", (pbb, strip_generics(pt.resolved or pt.callee)), (), pt)
@@ -410,7 +410,7 @@ def r3_parse_sites(chk, prog):
                 else:
                     e1, s1 = verify_edges(ctx, is_me, self_recv)
                     e2 = []
-                    for bb2, t2 in ctx.calls(ROOT_VERIFY):
+                    for bb2, t2 in ctx.calls(ROOT_VERIFY, wrappers=True):
                         og = ctx.origins.of_operand(t2.args[1], at=bb2)
                         ro = ctx.origins.of_operand(t2.args[0], at=bb2)
                         if og and all(is_me(o) for o in og) and ro and all(cur_recv(o) for o in ro) \
